@@ -8,7 +8,7 @@ R2  (prelude) GDError modelled as {kind}; `.context(x)`/`.into()` keep their rea
 R3  closure parameter pattern |&x| E  -> |x_ref: &T| { let x = *x_ref; E }   (T given: R3:u8)
 R4  expansion of the repository's own single-arm macro_rules! (done in rsparse.expand_macro)
 R5  (prelude) byteorder::ByteOrder modelled as an in-file trait with assumed specs
-R6  outer attributes, doc comments removed; pub(crate)/pub(super) -> pub
+R6  outer attributes and doc comments removed; every extracted item and struct field made `pub` (single-module unit)
 R7  f32/f64 read results kept opaque (prelude)
 R8:<idiom>  one std iterator idiom replaced by a call to a helper in contracts/std_assumed.rs whose
     body IS the idiom (external_body) and whose spec is assumed; pattern holes are bound to the
@@ -16,6 +16,8 @@ R8:<idiom>  one std iterator idiom replaced by a call to a helper in contracts/s
 R16 `for _ in A .. B`  ->  `for _ in verif_itN: A .. B`   (names the ghost iterator so invariants can refer to it)
 R17 `Vec::with_capacity(n)` / `vec![x; n]` / `HashMap::with_capacity(n)` -> wrapper fns (body = the std call) whose
     ghost precondition is the C13 allowance; any other sized allocation left in an extracted fn => undecided
+R19 `|e| K.context(e)` -> same closure with `ensures ret.kind == K` (applied everywhere; annotation only)
+R21 `Enum::Variant as u8` -> discriminant literal taken from the enum definition in the real source
 R18 `E as <int>` -> `#[verifier::truncate] (E as <int>)`  (annotation: casts wrap, exactly as in Rust)
 R9  `for PAT in A .. B {` kept; `for _ in ..` kept (Verus supports ranges); no-op marker
 R10 `e?` on Option inside fn returning Option untouched; marker only
@@ -67,7 +69,29 @@ def r6(text, arg, what):
         cnt += 1
     out.append(text[last:])
     text = ''.join(out)
-    text, c2 = re.subn(r'\bpub\s*\(\s*(crate|super)\s*\)', 'pub', text)
+    text, c2 = re.subn(r'\bpub\s*\(\s*(?:crate|super)\s*\)', 'pub', text)
+    # everything is made public: items (struct/enum/fn) and struct fields (single-module unit; visibility is not a
+    # property of interest and Verus forbids private fields in contracts of public fns)
+    m2 = rp.mask(text)
+    ms = re.match(r'\s*(pub\s+)?(struct|enum)\s+\w+', m2)
+    if ms:
+        if not ms.group(1):
+            text = text[:ms.start(2)] + 'pub ' + text[ms.start(2):]
+            m2 = rp.mask(text)
+        ob = m2.find('{')
+        if ob >= 0 and ms.group(2) == 'struct':
+            cb = rp.match_bracket(m2, ob)
+            fields = rp.split_top(text[ob + 1:cb])
+            newf = []
+            for f in fields:
+                if f.strip() and not f.strip().startswith('pub'):
+                    f = 'pub ' + f.strip()
+                newf.append(f)
+            text = text[:ob + 1] + '\n    ' + ',\n    '.join(x for x in newf if x.strip()) + ',\n' + text[cb:]
+    else:
+        mf = re.match(r'\s*((?:const\s+)?fn)\s+\w+', m2)
+        if mf and arg != 'trait':
+            text = text[:mf.start(1)] + 'pub ' + text[mf.start(1):]
     return text, cnt + c2
 
 
@@ -331,6 +355,53 @@ def unrouted_allocations(text):
     return out
 
 
+def r19(text, arg, what):
+    """`|e| K.context(e)`  ->  the same closure annotated with `ensures ret.kind == K` (contract annotation only)"""
+    m = rp.mask(text)
+    rx = re.compile(r'\|\s*(?P<v>\w+)\s*\|\s*(?P<k>(?:\w+\s*::\s*)*\w+)\s*\.\s*context\s*\(\s*(?P=v)\s*\)')
+    cnt, pos = 0, 0
+    while True:
+        mm = rx.search(m, pos)
+        if not mm:
+            break
+        v, k = mm.group('v'), re.sub(r'\s+', '', mm.group('k'))
+        new = f'|{v}| -> (ret: GDError) ensures ret.kind == {k} {{ {k}.context({v}) }}'
+        text = text[:mm.start()] + new + text[mm.end():]
+        m = rp.mask(text)
+        pos = mm.start() + len(new)
+        cnt += 1
+    return text, cnt
+
+
+def r21(text, arg, what):
+    """`Enum::Variant as u8` -> the discriminant literal read from the enum's definition in the real source
+    (arg = EnumName@path).  Verus has no exec enum-to-integer casts in const items."""
+    import os
+    name, _, rel = arg.partition('@')
+    repo = os.environ.get('VERIF_REPO', '/repo')
+    src = open(os.path.join(repo, rel)).read()
+    m = rp.mask(src)
+    (s0, h0, e0) = rp.find_one(src, m, 'enum', name, what=f'enum {name}')
+    body = rp.strip_comments(src[h0 + 1:e0 - 1])
+    disc = {}
+    for part in rp.split_top(body):
+        mm = re.match(r'^(?:#\[[^\]]*\]\s*)*(\w+)\s*=\s*([0-9xXa-fA-F_]+)$', part.strip())
+        if mm:
+            disc[mm.group(1)] = mm.group(2)
+    cnt = 0
+    def sub(mm):
+        nonlocal cnt
+        v = mm.group(1)
+        if v not in disc:
+            raise AnchorError(f'{what}: R21: {name}::{v} has no explicit discriminant')
+        cnt += 1
+        return f'({disc[v]}{mm.group(2)})'
+    text = re.sub(r'\b' + re.escape(name) + r'\s*::\s*(\w+)\s+as\s+(u8|u16|u32|i32)\b', sub, text)
+    if cnt == 0:
+        raise AnchorError(f'{what}: R21 requested but no `{name}::X as <int>` found')
+    return text, cnt
+
+
 def r16(text, arg, what):
     """name the ghost iterator of `for _ in A .. B` loops (Verus annotation syntax `for _ in it: A .. B`)"""
     m = rp.mask(text)
@@ -419,7 +490,7 @@ SIMPLE_IDIOMS = {
 }
 
 
-RULES = {'R1': r1, 'R3': r3, 'R6': r6, 'R8': r8, 'R16': r16, 'R18': r18, 'R2': r2, 'R17': r17}
+RULES = {'R1': r1, 'R3': r3, 'R6': r6, 'R8': r8, 'R16': r16, 'R18': r18, 'R2': r2, 'R17': r17, 'R19': r19, 'R21': r21}
 
 
 def apply(text, uses, what):
